@@ -50,7 +50,8 @@ CLAIMED = {
         "validates each recorded saver operation sequence against Storage.tla (StorageTrace.tla) and each observation against "
         "the P-level (StorageObs.tla).",
    note="Trusted: TLC, the interposer (module attributes os/shutil/open of strax.storage.files and strax.io replaced in a forked "
-        "child), os._exit as process death. A write() is atomic in the model. Forked (multiprocess) savers are not covered.",
+        "child), os._exit as process death. A write() is atomic in the model. Savers inlined into worker processes (ParallelSourcePlugin) are covered by the fault "
+        "enumeration and the P-level only; their per-chunk metadata protocol is not in Storage.tla.",
    technique="TLA+ model checking of the storage protocol + exhaustive fault injection on the real code with TLC trace validation (I-level) and TLC-evaluated P-level on observations",
    design="4/C04"),
  "C17": dict(
@@ -190,16 +191,20 @@ CLAIMED = {
    technique="TLA+ state machine of storage operations model-checked by TLC + TLC trace validation of real operation histories (StoreOpsTrace.tla) + TLC-evaluated P-level (StorageRT.tla) on the operation matrix",
    design="4/C16"),
  "C14": dict(
-   text="Superruns of 1..4 subruns (definition order != start order, differing chunk layouts incl. empty and zero-duration chunks) are "
+   text="spec/Superrun.tla is a state machine over histories of superrun definition and use in one data directory (define_run under both "
+        "name spellings, get, is_stored, new_context; stored copies keyed by the definition they were made from); TLC checks "
+        "ExactConcatenation, RedefinedGone and OrderedByStart over all histories of the bound, and seeded random histories executed on real "
+        "contexts are validated by TLC against it (SuperrunTrace.tla: rows delivered and subruns recorded in the chunk annotations). "
+        "Superruns of 1..4 subruns (definition order != start order, differing chunk layouts incl. empty and zero-duration chunks) are "
         "requested on real run metadata with the superrun-capable level at two depths of a 3-plugin chain, combined on the fly or "
         "written (with and without rechunking across subrun borders) and re-read, on both processors; yielded chunks, stored chunks "
         "and stored chunk metadata with their subruns annotations, and is_stored after redefinition are recorded and judged by TLC "
         "against spec/SuperrunObs.tla (ordered concatenation of the subruns' rows; each chunk's annotation names known subruns in "
         "order with spans that contain its rows; the spans of every subrun tile that subrun's own range; redefinition makes stored "
         "data unavailable). The annotation algebra under split / concatenate is model-checked in spec/Chunks.tla (C07).",
-   note="The specification part is the P-level predicate module SuperrunObs.tla; subruns do not overlap in time; run start times come "
+   note="Chunk-level content is judged by the P-level module SuperrunObs.tla, definition histories by Superrun.tla; subruns do not overlap in time; run start times come "
         "from run metadata written by the harness.",
-   technique="execution of the superrun scenario matrix on real contexts + TLC-evaluated P-level (SuperrunObs.tla) on recorded chunks and annotations",
+   technique="TLA+ state machine of superrun definition histories model-checked by TLC + TLC trace validation of real histories (SuperrunTrace.tla) + scenario matrix on real contexts judged by TLC at the P-level (SuperrunObs.tla)",
    design="4/C14"),
  "C15": dict(
    text="spec/MultiRun.tla models multi_run (at most 2*max_workers outstanding, any completion order, run-id-ordered result, "
